@@ -140,3 +140,39 @@ fn simulated_time() {
     assert_eq!(r.main, Some((true, Some(1))));
     assert!(r.now >= 3600 * 1_000_000_000);
 }
+
+#[test]
+fn polling_worker_does_not_starve_idle_waiters_or_quiescence() {
+    use std::time::Duration;
+    kernel::install_quiet_panic_hook();
+    let r = Kernel::run(KConfig::new(5, Strategy::Uniform), move || {
+        let (tx, rx) = channel::unbounded::<u32>();
+        let keep = tx.clone();
+        let got = Arc::new(AtomicU64::new(0));
+        let g2 = got.clone();
+        // a worker that polls with a timeout and never terminates (its own sender keeps the channel open)
+        thread::spawn(move || {
+            let _keep = keep;
+            loop {
+                match rx.recv_timeout(Duration::from_millis(100)) {
+                    Ok(v) => {
+                        g2.fetch_add(v as u64, Ordering::SeqCst);
+                    }
+                    Err(channel::RecvTimeoutError::Timeout) => continue,
+                    Err(channel::RecvTimeoutError::Disconnected) => break,
+                }
+            }
+        });
+        tx.send(5).unwrap();
+        tx.send(7).unwrap();
+        kernel::wait_idle();
+        let a = got.load(Ordering::SeqCst);
+        tx.send(1).unwrap();
+        kernel::wait_idle();
+        (a, got.load(Ordering::SeqCst))
+    });
+    assert!(r.error.is_none(), "{:?}", r.error);
+    assert_eq!(r.main, Some((12, 13)));
+    assert!(matches!(r.tasks[1].state, TState::Blocked { .. }));
+    assert!(r.now > 0);
+}
